@@ -17,6 +17,7 @@ cA == Scn(16, 6, 6, 2)      \* 4 ns, dt 1.5 ns (does not divide)
 cB == Scn(12, 4, 4, 2)      \* 3 ns, dt 1 ns (divides; the "far" point is a multiple of dt)
 cC == Scn(40, 40, 20, 2)    \* 10 ns, dt = duration
 cD == Scn(16, 20, 8, 2)     \* 4 ns, dt 5 ns > duration
-cQuick == Scn(16, 6, 6, 1) \cup Scn(12, 4, 4, 1)
+cB1 == Scn(12, 4, 4, 1)
+cQuick == Scn(16, 6, 6, 1) \cup cB1
 cAll == cA \cup cB \cup cC \cup cD
 ====
